@@ -158,6 +158,41 @@ func fanoutStageRule(o *Ob) {
 			o.Site(st, "records the error in "+e.X(lit, st.Addr))
 		}
 	}
+	// ... or a call that hands the error to a function which records it in state shared with Exec
+	var recParams []ssa.Value
+	for _, in := range AllInstrs(lit) {
+		c, ok := in.(*ssa.Call)
+		if !ok || c == ex.(*ssa.Call) || c.Call.IsInvoke() {
+			continue
+		}
+		callee := c.Call.StaticCallee()
+		if callee == nil {
+			callee = e.FuncValue(c.Call.Value)
+		}
+		if callee == nil || len(callee.Blocks) == 0 || !strings.HasPrefix(fnPkgPath(callee), Mod) {
+			continue
+		}
+		for ai, a := range c.Call.Args {
+			if !e.DerivesFrom(a, true, func(v ssa.Value) bool {
+				x, isX := v.(*ssa.Extract)
+				return isX && x.Tuple == ssa.Value(ex.(*ssa.Call)) && x.Index == 2
+			}) || ai >= len(callee.Params) {
+				continue
+			}
+			par := callee.Params[ai]
+			for _, in2 := range AllInstrs(callee) {
+				st, ok := in2.(*ssa.Store)
+				if ok && rootsInFreeVar(st.Addr) && e.DerivesFrom(st.Val, true, func(v ssa.Value) bool { return v == ssa.Value(par) }) {
+					// every path of the recorder stores it
+					if len((&Walk{Fn: callee, Barrier: IsInstr(st)}).FromEntry().Returns()) == 0 {
+						errStores = append(errStores, c)
+						recParams = append(recParams, par)
+						o.Site(c, "records the error through "+fnName(callee))
+					}
+				}
+			}
+		}
+	}
 	if o.Check(len(errStores) > 0, "fan-err-store", "an integration's error is not recorded", nil) {
 		if e.CountLitEdges(lit, failed)+e.CountLitEdges(lit, failed.Neg()) > 0 {
 			o.Forced(lit, "fan-err-forced", "a failing integration's error must be recorded", IsInstr(errStores...), failed)
@@ -168,7 +203,11 @@ func fanoutStageRule(o *Ob) {
 		// and what Exec returns is computed from what the goroutines recorded
 		for _, ret := range (&Walk{Fn: fn}).FromEntry().Returns() {
 			src := e.Sources(ret.Results[2], true)
-			o.Check(src[ex.(*ssa.Call)], "fan-err-value", "the error returned by FanoutStage.Exec does not include the integrations' errors", ret)
+			inc := src[ex.(*ssa.Call)]
+			for _, p := range recParams {
+				inc = inc || src[p] // what the recording function was handed (the integration's error, shown above)
+			}
+			o.Check(inc, "fan-err-value", "the error returned by FanoutStage.Exec does not include the integrations' errors", ret)
 		}
 	}
 	// no cancellation of siblings: the literal must not call a cancel function / context.WithCancel
